@@ -8,10 +8,11 @@ CLAIMED = {
     text='Machine-checked proof (Lean 4) on a model of ProcessStatus/Context status synthesis: for every admissible history '
          'over any number of instances the synthesis never raises, an instance is listed iff the fold of its own reports says so, '
          'the listing is duplicate-free (conflict flag counts distinct instances), the state is a running state iff a listed '
-         'instance last reported one, a loss never touches other entries. The model is tied to the current /repo by a lock-step '
+         'instance last reported one, a loss never touches other entries and always unlists the lost instance. The model is tied to the current /repo by a lock-step '
          'correspondence (real Context driven in-process, every observation compared and judged by the Lean specification).',
-    note='Partial: two input classes are excluded from the theorems and recorded as known findings (lose-while-only-stopping, '
-         'remove-entry-not-stopped; refutation witnesses proved in Lean and replayed on the code). The stopped-like display and the '
+    note='Partial: one input class is excluded from the theorems and recorded as a known finding (remove-entry-not-stopped; refutation '
+         'witness proved in Lean and replayed on the code); the second one, lose-while-only-stopping, was repaired (a0ba3bf): the loss of an instance '
+         'is now claimed without condition (C11_lose_unlists: a lost instance is never left listed, whatever the process). The stopped-like display and the '
          'forced-state clauses are judged on the implementation by the Lean specification (search), not yet proved. Trusted: Lean '
          'kernel, standard axioms, harness/c11.py, harness/simenv.py, Drv/C11.lean; reception-time ties left open.',
     technique='Lean 4 invariant proof over operation histories + lock-step model/implementation correspondence',
@@ -50,7 +51,7 @@ CLAIMED.update({
          'states and the strict comparison of is_inactive are REGENERATED from the source; the table has only documented edges, ISOLATED is final. '
          'Tie: translator + global lock-step of the real cluster with crash/restart/cut/heal instants and tick phases.',
     note='Partial: the detection bound and same-tick invalidation are carried by the lock-step correspondence and by timing judges on the real '
-         'objects, not by a theorem; "lost processes become FATAL" is C11 (known finding lose-while-only-stopping applies); local-never-ISOLATED '
+         'objects, not by a theorem; "lost processes become FATAL" is C11 (C11_lose_unlists; the former known finding lose-while-only-stopping was repaired by a0ba3bf); local-never-ISOLATED '
          'is judged. Real clocks and TCP time-outs are outside the model (an XML-RPC failure is an input).',
     technique='Lean 4 frame/invariant proof over operation histories (state-error monad kit) + lock-step correspondence',
     design='7 (C07)'),
@@ -130,8 +131,8 @@ CLAIMED.update({
          '(harness/c16free.py) ends every schedule with a quiet phase and judges on the real objects that no Starter / Stopper job is still in progress.',
     note='Partial: that every request in flight is actually submitted to those decisions at each periodic check is carried by the correspondence and '
          'judged by the monitor (known finding: start-request-untracked - a job dropped by a re-entrant Commander.next leaves requests unfollowed); '
-         'the loss of one or two target instances at any point of a job, re-joins and process removals are generated; two known findings on losses (lost-start-not-reported-'
-         'fatal, lost-stop-still-listed) and one of the free-running stage (stopping-entry-of-lost-instance, same root cause as C11 lose-while-only-stopping); '
+         'the loss of one or two target instances at any point of a job, re-joins and process removals are generated; one known finding on losses (lost-start-not-reported-'
+         'fatal); lost-stop-still-listed and the free-running stopping-entry-of-lost-instance (root cause C11 lose-while-only-stopping) were repaired by a0ba3bf; '
          'defects repaired: c24ff19 (a request whose process was removed from the target raised at every tick and stopped the TICK), 36715a1 (planned commands of a '
          'non-distributed application kept a lost instance: the request was sent there and never timed out). The free-running liveness judges are a search over '
          'finite schedules on fixed seed ranges, not a proof that the closed loop always quiesces. ' + CMD_TRUST,
